@@ -647,6 +647,12 @@ impl<'a, S: Storage> BTree<'a, S> {
         let free_end = u16::from_le_bytes([page_data[6], page_data[7]]) as usize;
         let cell_count = u16::from_le_bytes([page_data[2], page_data[3]]) as usize;
 
+        // An empty leaf gives no evidence that `key` sorts behind every key of the leaves
+        // in front of it (its cells were deleted; its parent separator still applies).
+        if cell_count == 0 && hint_page != self.root_page {
+            return Ok(false);
+        }
+
         if cell_count > 0 {
             let last_slot_off = LEAF_CONTENT_START + (cell_count - 1) * SLOT_SIZE;
             let last_slot = &page_data[last_slot_off..last_slot_off + SLOT_SIZE];
@@ -870,6 +876,11 @@ impl<'a, S: Storage> BTree<'a, S> {
         }
 
         let cell_count = leaf.cell_count() as usize;
+        // An empty leaf gives no evidence that `key` sorts behind every key of the leaves
+        // in front of it (its cells were deleted; its parent separator still applies).
+        if cell_count == 0 && hint_page != self.root_page {
+            return Ok(false);
+        }
         if cell_count > 0 {
             let last_key = leaf.key_at(cell_count - 1)?;
             if key <= last_key {
